@@ -12,8 +12,8 @@
     Local.from_local_datetime (the C05_from_local_values theorems).  Still open: the rule round trip ON the
     excepted boundary seconds (the property excepts them); composite zones whose last table
     transition, read on the clocks involved, straddles a calendar-year boundary (clause (1) of
-    [footer_continues]; no such zone in the system database); footer rules of the Fixed kind after
-    a table are not given a separate theorem (the scan result is then the table's, plus Single). *)
+    [footer_continues]; it holds whenever the last table transition is one of the rule's transitions
+    under the property's premise and the offset before it is one of the rule's two offsets). *)
 From Coq Require Import ZArith List Bool.
 From V Require Import Base.Int Base.IO.
 From V Require Import Spec.Zone Proofs.TzCommon.
@@ -403,6 +403,45 @@ Theorem C05_composite_example_readings :
   instants_of_wall exc_cz 1698546600 = [1698539400; 1698543000].
 Proof. exact exc_readings. Qed.
 Print Assumptions C05_composite_example_readings.
+
+(* a table followed by a FIXED footer (zones that abolished daylight time, "JST-9"): when the footer's
+   offset is the offset after the last transition the same classification holds, for every reading
+   off the table's excepted seconds and every year argument *)
+Theorem C05_composite_fixed_classification : forall z ps first f y l,
+  let cz := mk_szone (ut_offset first) (offs ps) (Some (inl (ut_offset f))) in
+  table_zone z ps first -> extra_rule z = Some (Fixed f) ->
+  increasing (offs ps) = true -> spacing_table (offs ps) (ut_offset first) = true ->
+  (forall tl pv ol, last_window (offs ps) (ut_offset first) = Some (tl, pv, ol) -> ol = ut_offset f) ->
+  excepted_wall cz l = false ->
+  exists m, find_local_time_type_from_local z y l = Val (Ok m) /\ classified cz l m.
+Proof. exact composite_fixed_classification. Qed.
+Print Assumptions C05_composite_fixed_classification.
+Theorem C05_composite_fixed_example :
+  table_zone fix_zone ex_ps ex_cet /\ extra_rule fix_zone = Some (Fixed ex_cet) /\
+  (forall tl pv ol, last_window (offs ex_ps) (ut_offset ex_cet) = Some (tl, pv, ol) -> ol = ut_offset ex_cet) /\
+  excepted_wall fix_cz 1719792000 = false /\
+  find_local_time_type_from_local fix_zone 2024 1719792000 = Val (Ok (MSingle ex_cet)) /\
+  instants_of_wall fix_cz 1719792000 = [1719788400] /\
+  excepted_wall fix_cz 1698546600 = false /\
+  find_local_time_type_from_local fix_zone 2023 1698546600 = Val (Ok (MAmbiguous ex_cest ex_cet)) /\
+  instants_of_wall fix_cz 1698546600 = [1698539400; 1698543000].
+Proof. exact fix_facts. Qed.
+Print Assumptions C05_composite_fixed_example.
+
+(* the continuity condition of C05_composite_classification cannot be dropped (the case named in the
+   known finding C05-closely-spaced-transitions: "a footer rule whose transition near the last table
+   transition does not continue the table"): every other hypothesis holds, clause (3) of
+   footer_continues fails, the rule code answers Ambiguous, the reading occurs once *)
+Theorem C05_footer_discontinuous_refuted :
+  table_zone dis_zone dis_ps ex_cet /\ extra_rule dis_zone = Some (Alternate exc_rule) /\
+  increasing (offs dis_ps) = true /\ spacing_table (offs dis_ps) (ut_offset ex_cet) = true /\
+  rule_year_hyps (conv_rule exc_rule) (footer_year dis_cz) /\ rule_reading_hyps exc_rule 1698546600 /\
+  footer_hi dis_cz < 1698546600 /\ excepted_wall dis_cz 1698546600 = false /\
+  footer_continues dis_cz = false /\
+  find_local_time_type_from_local dis_zone 2023 1698546600 = Val (Ok (MAmbiguous ex_cest ex_cet)) /\
+  instants_of_wall dis_cz 1698546600 = [1698543000].
+Proof. exact discontinuous_refuted. Qed.
+Print Assumptions C05_footer_discontinuous_refuted.
 
 (* the classification in list form: the candidates' instants ARE the list instants_of_wall
    ([classified z l m] is the None / Single / Ambiguous statement of the classification theorems;
